@@ -87,6 +87,7 @@ Record pobs := {
   o_status : Z;             (* at the end: that status (0 if none) *)
   o_body : bytes;           (* at the end: the body *)
   o_records : list logrec;  (* records received by the capturing slog.Handler *)
+  o_records_visible : bool; (* false: the middleware logs to a handler the observer cannot read (Recovery(), CustomRecovery()) *)
   o_followup_ok : bool;     (* a later request to a control route is served normally *)
   o_write_ok : bool;        (* a later Handle + Delete completes (the writer lock is free) *)
   o_routes_same : bool      (* the registered routes are those registered before the request *)
@@ -139,18 +140,22 @@ Definition response_ok (v : pval) (o : pobs) : bool :=
   else if reports_broken_connection v then o_untouched o && negb (o_wrote o)
   else o_wrote o && (o_status o =? 500).
 
-(* one diagnostic record for a recovered panic *)
+(* one diagnostic record for a recovered panic, when the log handler given to the middleware
+   accepts records at level Error (none can exist otherwise); whatever the handler does with
+   records must not change the containment and response clauses *)
 Definition records_ok (sc : scope) (pattern : bytes) (params : list (bytes * bytes)) (reqline : bytes)
-           (headers : list (bytes * bytes)) (v : pval) (o : pobs) : bool :=
+           (headers : list (bytes * bytes)) (enabled : bool) (v : pval) (o : pobs) : bool :=
   if carries_abort v then true
+  else if negb (o_records_visible o) then true
   else match o_records o with
-       | [r] => record_ok sc pattern params reqline headers r
+       | [r] => enabled && record_ok sc pattern params reqline headers r
+       | [] => negb enabled
        | _ => false
        end.
 
 Definition spec_panic_ok (sc : scope) (pattern : bytes) (params : list (bytes * bytes)) (reqline : bytes)
-           (headers : list (bytes * bytes)) (v : pval) (vid : N) (o : pobs) : bool :=
-  usable o && contained_ok v vid o && response_ok v o && records_ok sc pattern params reqline headers v o.
+           (headers : list (bytes * bytes)) (enabled : bool) (v : pval) (vid : N) (o : pobs) : bool :=
+  usable o && contained_ok v vid o && response_ok v o && records_ok sc pattern params reqline headers enabled v o.
 
 (* ---------- observation of a managed transaction (Updates / View) ---------- *)
 
